@@ -241,7 +241,7 @@ func c11GenProgram(rt *rapid.T) []byte {
 func TestC11(t *testing.T) {
 	c := vf.New(t, "C11", "(a) rapid ROM images: hostile lengths (0, 1, around the header, page +-1, odd, multi-page) and well-sized images with arbitrary header bytes, followed by window reads, control writes and a CPU run; "+
 		"(b) every supported cartridge type x ROM size code x RAM size code x every value written to every control region (with A8 variants), followed by reads of both ends of every window and a RAM write/read; "+
-		"(c) rapid multi-step write/read sequences over the whole address space; (c2) every sound channel restarted at every phase of its period; (d) rapid programs that hammer cartridge registers, DMA, LCDC, the APU, OAM pointers and HALT/STOP on the full machine for up to 60000 cycles. "+
+		"(c) rapid multi-step write/read sequences over the whole address space; (c2) every sound channel restarted at every phase of its period; (c3) the LCD switched off and on twelve times before V-blank with window and objects at their extremes; (d) rapid programs that hammer cartridge registers, DMA, LCDC, the APU, OAM pointers and HALT/STOP on the full machine for up to 60000 cycles. "+
 		"Oracle: construction may panic (allowed); any later panic is a violation. Non-trivial: the image was accepted and a later step touched a cartridge window; distinct by case hash / by (type, sizes, region, value).")
 	defer c.Flush()
 	c.RunReplays()
@@ -380,6 +380,44 @@ func TestC11(t *testing.T) {
 		}
 		c.Bulk("apu-restart-phases", n, n)
 		c.Exhaustive("each sound channel triggered, then triggered again after every delay 0..2 wave periods (wave channel, 14 frequencies; quick: at most 1100 cycles) / 0..600 cycles (squares with and without sweep, noise), with and without length enable, followed by DAC and power cycling with further triggers")
+	})
+
+	// The LCD switched off and on again and again before the frame reaches V-blank, with window, objects and
+	// scroll registers at their extremes: whatever the picture unit counts per frame must not run away.
+	c.Sub("lcd-restarts", func(t *testing.T) {
+		var n int64
+		idx := 0
+		for _, lcdc := range []uint8{0xf3, 0xb3, 0xe7, 0xfb, 0x91, 0xa1} {
+			for _, line := range []int{1, 17, 100, 120, 140, 143} {
+				for _, wx := range []uint8{0, 7, 87, 166, 200} {
+					for _, wy := range []uint8{0, 1, 100, 143} {
+						idx++
+						if !c.Env.Mine(idx) {
+							continue
+						}
+						ops := []c11Op{{Kind: "w", A: 0xff40, V: 0x00}, {Kind: "w", A: 0xff4a, V: wy}, {Kind: "w", A: 0xff4b, V: wx}, {Kind: "w", A: 0xff42, V: uint8(idx * 37)}, {Kind: "w", A: 0xff43, V: uint8(idx * 91)},
+							{Kind: "w", A: 0xfe00, V: 16 + uint8(line)}, {Kind: "w", A: 0xfe01, V: 20}, {Kind: "w", A: 0xfe02, V: uint8(idx)}, {Kind: "w", A: 0xfe03, V: uint8(idx * 16)}}
+						for k := 0; k < 12; k++ {
+							ops = append(ops, c11Op{Kind: "w", A: 0xff40, V: lcdc}, c11Op{Kind: "hw", N: line*114 + (idx+k*29)%114}, c11Op{Kind: "w", A: 0xff40, V: lcdc &^ 0x80})
+						}
+						ops = append(ops, c11Op{Kind: "w", A: 0xff40, V: lcdc}, c11Op{Kind: "hw", N: 2 * 17556})
+						cas := c11Case{Spec: c11Spec{Len: -1}, Ops: ops}
+						_, sig, err := c11Run(cas)
+						n++
+						if idx%97 == 0 {
+							c.Sample("lcd-restarts", cas)
+						}
+						if err != nil {
+							if known, first := c.FailFirst("crash", sig, err.Error(), cas); !known && first {
+								t.Errorf("%v", err)
+							}
+						}
+					}
+				}
+			}
+		}
+		c.Bulk("lcd-restarts", n, n)
+		c.Exhaustive("6 LCDC values (window/objects on and off, both maps) x 6 restart lines x 5 WX x 4 WY: the LCD switched off at that line and on again twelve times, then two full frames")
 	})
 
 	opGen := rapid.Custom(func(rt *rapid.T) c11Op {
